@@ -36,6 +36,8 @@ fn prog(name: &str, setup: Vec<TOp>, threads: Vec<Vec<TOp>>) -> Arc<Prog> {
         fault: None,
         fault_thread: None,
         final_directory: false,
+        fault_budget: None,
+        judge_under_fault: false,
     })
 }
 
@@ -124,6 +126,8 @@ pub fn c06_programs() -> Vec<Arc<Prog>> {
             fault: None,
             fault_thread: None,
             final_directory: false,
+            fault_budget: None,
+            judge_under_fault: false,
         })
     };
     let pre = vec![Batch(vec![(0, Some(1)), (1, Some(2))])];
@@ -311,10 +315,17 @@ pub fn c05(tier: &str) -> ! {
         run_sched(&mut rep, "sharp/p1d4", &c05_sharp(), (1, 4), 4, false, 1, Duration::from_secs(30), own);
         run_sched(&mut rep, "generated/p1d4", &c05_generated(), (1, 4), 1, false, 1, Duration::from_secs(25), own);
     }
+    // "its caller receives its own outcome": grouped / queued writers while a filesystem call fails
+    let own_f = |c: &str| c.starts_with("C05.") || c.starts_with("C08.concurrent");
+    if t {
+        run_sched(&mut rep, "outcomes-under-fault/p2d4", &c08_concurrent_programs(), (2, 4), 16, false, 2, Duration::from_secs(900), own_f);
+    } else {
+        run_sched(&mut rep, "outcomes-under-fault/p1d3", &c08_concurrent_programs(), (1, 3), 4, false, 1, Duration::from_secs(10), own_f);
+    }
     for a in SCHED_ASSUMPTIONS {
         rep.assume(a);
     }
-    rep.cov("oracle", json!("brute-force linearizability of the recorded call/return history (incl. a final read of all keys) against a map model; every call returns Ok; no panic, deadlock or livelock"));
+    rep.cov("oracle", json!("brute-force linearizability of the recorded call/return history (incl. a final read of all keys) against a map model; every call returns Ok; no panic, deadlock or livelock. Under an injected fault (once / sticky by file kind): linearizable with failed calls optional — every caller got its own outcome: a write that returned Ok is visible afterwards and still there after a reopen without the fault"));
     rep.finish()
 }
 
@@ -356,6 +367,8 @@ pub fn c03_programs() -> Vec<Arc<Prog>> {
             fault: None,
             fault_thread: None,
             final_directory: false,
+            fault_budget: None,
+            judge_under_fault: false,
         })
     };
     let pre = vec![Put(0, 1, 8), Flush, Put(1, 2, 8), Flush];
@@ -393,6 +406,8 @@ pub fn levels_programs() -> Vec<Arc<Prog>> {
             fault: None,
             fault_thread: None,
             final_directory: true,
+            fault_budget: None,
+            judge_under_fault: false,
         })
     };
     vec![
@@ -417,6 +432,8 @@ pub fn c09_programs() -> Vec<Arc<Prog>> {
             fault: None,
             fault_thread: None,
             final_directory: false,
+            fault_budget: None,
+            judge_under_fault: false,
         })
     };
     vec![
@@ -465,6 +482,8 @@ pub fn c11_removal_programs() -> Vec<Arc<Prog>> {
             fault: None,
             fault_thread: None,
             final_directory: false,
+            fault_budget: None,
+            judge_under_fault: false,
         })
     };
     let l0 = vec![Put(0, 1, 8), Flush, Put(0, 2, 8), Flush, Put(0, 3, 8), Flush, Put(0, 4, 8)];
@@ -499,6 +518,8 @@ pub fn c11_fault_programs() -> Vec<Arc<Prog>> {
             fault: Some(fault),
             fault_thread: Some(0),
             final_directory: true,
+            fault_budget: None,
+            judge_under_fault: false,
         })
     };
     let big = Cfg::new(4 << 20, 300, 16, true);
@@ -525,6 +546,77 @@ pub fn c02_meta_programs() -> Vec<Arc<Prog>> {
         .collect()
 }
 
+/// C08 under concurrency (also C05's "its caller receives its own outcome"): writers that are
+/// grouped into one commit, or queued behind a leader waiting for room, while one filesystem call
+/// fails once or persistently. Judged by linearizability with failed calls optional, and by a
+/// reopen once the fault is gone (every acknowledged write must be there).
+pub fn c08_concurrent_programs() -> Vec<Arc<Prog>> {
+    use crate::vfs::class;
+    let pt = |name: &str, setup: Vec<TOp>, threads: Vec<Vec<TOp>>, fault: (u32, &'static str), budget: Option<u32>, fault_thread: Option<usize>| {
+        Arc::new(Prog {
+            name: name.to_string(),
+            cfg: rot_cfg(),
+            keys: kab(),
+            setup,
+            threads,
+            strict_unlink: false,
+            fs_switch: false,
+            recover_at_removals: false,
+            recover_at_meta: false,
+            fault: Some(fault),
+            fault_thread,
+            final_directory: false,
+            fault_budget: budget,
+            judge_under_fault: true,
+        })
+    };
+    let p = |name: &str, setup: Vec<TOp>, threads: Vec<Vec<TOp>>, fault: (u32, &'static str), budget: Option<u32>| pt(name, setup, threads, fault, budget, None);
+    let mut v = vec![];
+    for (tag, budget) in [("once", Some(1u32)), ("sticky", None)] {
+        let n = |s: &str| format!("{} {}", s, tag);
+        v.push(p(&n("wal-write-fails: w||w||get+get"), vec![Put(0, 1, 8)], vec![vec![Put(0, 2, 8)], vec![Put(0, 3, 8)], vec![Get(0), Get(0)]], (class::WRITE, ".log"), budget));
+        // three writers: while the first is in its WAL section the other two queue up and are
+        // committed as one group by the second — the follower must get the group's outcome
+        v.push(p(&n("wal-write-fails: w||w||w"), vec![Put(0, 1, 8)], vec![vec![Put(0, 2, 8)], vec![Put(1, 3, 8)], vec![Put(0, 4, 8)]], (class::WRITE, ".log"), budget));
+        // only the second thread's calls fail: its WAL append fails exactly when it leads a group
+        v.push(pt(
+            &n("wal-write-of-T2-fails: w||w||w"),
+            vec![Put(0, 1, 8)],
+            vec![vec![Put(0, 2, 8)], vec![Put(1, 3, 8)], vec![Put(0, 4, 8)]],
+            (class::WRITE, ".log"),
+            budget,
+            Some(1),
+        ));
+        v.push(pt(
+            &n("wal-write-of-T2-fails: w||batch||w+get"),
+            vec![Put(0, 1, 8)],
+            vec![vec![Put(1, 2, 8)], vec![Batch(vec![(0, Some(3)), (1, Some(3))])], vec![Put(0, 4, 8), Get(1)]],
+            (class::WRITE, ".log"),
+            budget,
+            Some(1),
+        ));
+        v.push(p(
+            &n("wal-flush-fails: w||batch||del"),
+            vec![Put(0, 1, 8)],
+            vec![vec![Put(1, 2, 8)], vec![Batch(vec![(0, Some(3)), (1, Some(3))])], vec![Del(0)]],
+            (class::FLUSH, ".log"),
+            budget,
+        ));
+        v.push(p(&n("wal-flush-fails: w+get||w+get"), vec![Put(0, 1, 8)], vec![vec![Put(0, 2, 8), Get(1)], vec![Put(1, 3, 8), Get(0)]], (class::FLUSH, ".log"), budget));
+        v.push(p(
+            &n("wal-write-fails: batch||w||snapread"),
+            vec![Put(0, 1, 8)],
+            vec![vec![Batch(vec![(0, Some(2)), (1, Some(2))])], vec![Put(1, 3, 8)], vec![SnapRead(vec![0, 1])]],
+            (class::WRITE, ".log"),
+            budget,
+        ));
+        v.push(p(&n("table-create-fails: w+w||w+get"), vec![Put(0, 1, 8)], vec![vec![Put(1, 2, 8), Put(0, 3, 8)], vec![Put(1, 4, 8), Get(0)]], (class::CREATE, ".rdb"), budget));
+        v.push(p(&n("manifest-write-fails: w+w||w+get"), vec![Put(0, 1, 8)], vec![vec![Put(1, 2, 8), Put(0, 3, 8)], vec![Put(1, 4, 8), Get(1)]], (class::WRITE, ".manifest"), budget));
+        v.push(p(&n("wal-create-fails: w+w||w+get"), vec![Put(0, 1, 8)], vec![vec![Put(1, 2, 8), Put(0, 3, 8)], vec![Del(0), Get(0)]], (class::CREATE, ".log"), budget));
+    }
+    v
+}
+
 /// C09 with an I/O fault: writers queued behind a leader that is waiting for room when the
 /// background flush fails must all be released (with an error), never left waiting.
 pub fn c09_fault_programs() -> Vec<Arc<Prog>> {
@@ -543,6 +635,8 @@ pub fn c09_fault_programs() -> Vec<Arc<Prog>> {
             fault: Some(fault),
             fault_thread: None,
             final_directory: false,
+            fault_budget: None,
+            judge_under_fault: false,
         })
     };
     vec![
